@@ -47,7 +47,7 @@ def capture(fn, *a):
 def update_design():
     p = os.path.join(V, "DESIGN.md")
     s = open(p).read()
-    for tag, text in (("STATUS-TABLE", capture(status)), ("SEEDS-R2", capture(seeds, "r2")), ("SEEDS-R3", capture(seeds, "r3"))):
+    for tag, text in (("STATUS-TABLE", capture(status)), ("SEEDS-R2", capture(seeds, "r2")), ("SEEDS-R3", capture(seeds, "r3")), ("SEEDS-R4", capture(seeds, "r4"))):
         b, e = "<!-- %s-BEGIN -->" % tag, "<!-- %s-END -->" % tag
         i, j = s.index(b) + len(b), s.index(e)
         s = s[:i] + "\n" + text + s[j:]
